@@ -87,7 +87,7 @@ def dec_case(sch_term, fcp, name, data, result, exc):
     else:
         try:
             o = f"(OVal {to_coq.struct_value(fcp, name, result)})"
-        except TypeError:
+        except Exception:            # a decoded value of the wrong shape/type for the schema (cannot be embedded): not a value of the model
             o = "OOther"
     return cpair(sch_term, cstr(name), f"(Dec {clist(cz(b) for b in data)} {o})")
 
